@@ -17,7 +17,7 @@ use crate::consts::appconsts::AppVersion;
 use crate::error::UniffiResult;
 use crate::nmt::Namespace;
 use crate::state::{AccAddress, AddressTrait};
-use crate::{Error, Result, Share, bail_validation};
+use crate::{Error, Result, Share, bail_validation, validation_error};
 
 pub use self::commitment::Commitment;
 pub use self::msg_pay_for_blobs::MsgPayForBlobs;
@@ -153,7 +153,13 @@ impl Blob {
 
     /// Creates a `Blob` from [`RawBlob`] and an [`AppVersion`].
     pub fn from_raw(raw: RawBlob, app_version: AppVersion) -> Result<Blob> {
-        let namespace = Namespace::new(raw.namespace_version as u8, &raw.namespace_id)?;
+        let namespace_version = u8::try_from(raw.namespace_version).map_err(|_| {
+            validation_error!(
+                "namespace version ({}) must be single byte",
+                raw.namespace_version
+            )
+        })?;
+        let namespace = Namespace::new(namespace_version, &raw.namespace_id)?;
         let share_version =
             u8::try_from(raw.share_version).map_err(|_| Error::UnsupportedShareVersion(u8::MAX))?;
         let signer = raw.signer.try_into().map(AccAddress::new).ok();
